@@ -595,6 +595,19 @@ static void runC02(int argc, char **argv)
             QDomDocument d2;
             const bool ok2 = parseOutput(*x2, d2, e.fragment);
             if (!ok2 || canon(d2.documentElement()) != c1) {
+                // the namespace lent to a namespace-less output root also moves namespace-less descendants (which cannot exist inside a real
+                // stream) into it; a drift that is gone when the library's output is re-parsed exactly as written is the harness's doing
+                {
+                    auto r1 = e.pass(el);
+                    QDomDocument d1r, d2r;
+                    if (r1 && !e.fragment && *r1 != *x1 && parseOutput(*r1, d1r, false)) {
+                        auto r2 = e.pass(d1r.documentElement());
+                        if (r2 && parseOutput(*r2, d2r, false) && canon(d2r.documentElement()) == canon(d1r.documentElement())) {
+                            stats[i].fixpoint++;
+                            continue;
+                        }
+                    }
+                }
                 rep.violation(u"not-a-fixpoint "_s + (x2->trimmed().isEmpty() ? u":second-pass-writes-nothing"_s : ok2 ? diffPath(d1.documentElement(), d2.documentElement()) : u":unparseable"_s), e.name, { { "doc", QString::fromUtf8(docBytes.left(4000)) }, { "x1", QString::fromUtf8(x1->left(4000)) }, { "x2", QString::fromUtf8(x2->left(4000)) } });
                 continue;
             }
